@@ -359,6 +359,8 @@ struct Rewriter<'a, 'e> {
     fired: BTreeMap<String, usize>,
     /// R22: (callee, extra ghost argument text) -- every call of `callee` gets the extra (erased) argument appended
     thread: Vec<(String, String)>,
+    /// R27 (per-function flag `tostring`): X.to_string() -> X.shim_to_string()
+    tostring: bool,
 }
 
 const LOG_MACROS: &[&str] = &["trace", "debug", "info", "warn", "error", "println", "eprintln", "print", "eprint"];
@@ -383,6 +385,22 @@ impl<'a, 'e> Rewriter<'a, 'e> {
             }
         }
         None
+    }
+    /// `|_| panic!(..)` / `|_| { panic!(..) }` (also unreachable!)
+    fn closure_only_panics(e: &syn::Expr) -> bool {
+        fn is_panic_mac(m: &syn::Macro) -> bool { let n = last_seg(&m.path); n == "panic" || n == "unreachable" }
+        if let syn::Expr::Closure(c) = e {
+            match &*c.body {
+                syn::Expr::Macro(m) => return is_panic_mac(&m.mac),
+                syn::Expr::Block(b) if b.block.stmts.len() == 1 => match &b.block.stmts[0] {
+                    syn::Stmt::Macro(sm) => return is_panic_mac(&sm.mac),
+                    syn::Stmt::Expr(syn::Expr::Macro(m), _) => return is_panic_mac(&m.mac),
+                    _ => {}
+                },
+                _ => {}
+            }
+        }
+        false
     }
     fn is_method(e: &syn::Expr, name: &str, nargs: usize) -> Option<(syn::Expr, Vec<syn::Expr>)> {
         if let syn::Expr::MethodCall(m) = e {
@@ -542,6 +560,21 @@ impl<'a, 'e, 'ast> Visit<'ast> for Rewriter<'a, 'e> {
             }
         }
         syn::visit::visit_expr_call(self, c);
+    }
+    fn visit_expr_binary(&mut self, b: &'ast syn::ExprBinary) {
+        // R25: X == "lit" / X != "lit"  ->  (X).shim_eq("lit") / !(X).shim_eq("lit")
+        //      (`String == &str` / `&str == &str` go through std PartialEq impls without a Verus spec; routed through one trait)
+        let is_eq = matches!(b.op, syn::BinOp::Eq(_));
+        let is_ne = matches!(b.op, syn::BinOp::Ne(_));
+        if (is_eq || is_ne) && matches!(&*b.right, syn::Expr::Lit(syn::ExprLit { lit: syn::Lit::Str(_), .. })) {
+            let (a, e) = self.src.range(b.span());
+            let pieces = vec![Self::lit(if is_ne { "!(" } else { "(" }), self.sub(b.left.span()), Self::lit(").shim_eq("), self.sub(b.right.span()), Self::lit(")")];
+            self.ed.replace(a, e, pieces, "R25");
+            self.fire("R25");
+            self.visit_expr(&b.left);
+            return;
+        }
+        syn::visit::visit_expr_binary(self, b);
     }
     fn visit_stmt_macro(&mut self, m: &'ast syn::StmtMacro) {
         self.macro_rule(&m.mac, m.span(), m.semi_token.is_some());
@@ -723,6 +756,33 @@ impl<'a, 'e, 'ast> Visit<'ast> for Rewriter<'a, 'e> {
             let pieces = vec![self.sub(m.receiver.span()), Self::lit(".unwrap_or_abort()")];
             self.ed.replace(a, b, pieces, "R6");
             self.fire("R6");
+        }
+        // R6: X.unwrap_or_else(|_| panic!(...)) where abort is a legal outcome: the closure does nothing but panic
+        else if self.abort_allowed && name == "unwrap_or_else" && m.args.len() == 1 && Self::closure_only_panics(&m.args[0]) {
+            let pieces = vec![self.sub(m.receiver.span()), Self::lit(".unwrap_or_abort()")];
+            self.ed.replace(a, b, pieces, "R6");
+            self.fire("R6");
+            self.visit_expr(&m.receiver);
+            return;
+        }
+        // R27: X.to_string() -> X.shim_to_string()  (the blanket `impl<T: Display> ToString for T` cannot be given a per-type spec)
+        else if self.tostring && name == "to_string" && m.args.is_empty() {
+            let (ma, mb) = self.src.range(m.method.span());
+            self.ed.replace(ma, mb, vec![Self::lit("shim_to_string")], "R27");
+            self.fire("R27");
+        }
+        // R24: X.parse() -> X.shim_parse()   (str::parse::<T> is generic over FromStr; routed through a trait with one impl per target type)
+        else if name == "parse" && m.args.is_empty() && m.turbofish.is_none() {
+            let (ma, mb) = self.src.range(m.method.span());
+            self.ed.replace(ma, mb, vec![Self::lit("shim_parse")], "R24");
+            self.fire("R24");
+        }
+        // R15 (function argument): OPT.map(PATH)  ->  match OPT { Some(x) => Some(PATH(x)), None => None }
+        else if name == "map" && m.args.len() == 1 && matches!(&m.args[0], syn::Expr::Path(_)) {
+            let pieces = vec![Self::lit("(match "), self.sub(m.receiver.span()), Self::lit(" { Some(shim_x) => Some("),
+                              self.sub(m.args[0].span()), Self::lit("(shim_x)), None => None })")];
+            self.ed.replace(a, b, pieces, "R15");
+            self.fire("R15");
         }
         let _ = e;
         if let Some((_, extra)) = self.thread.iter().find(|(n, _)| *n == name).cloned() {
@@ -1020,7 +1080,7 @@ fn process_fn(ctx: &mut Ctx, d: &FnDirective, assume_default: bool, tfile: &str)
                 let w: Vec<&str> = a.split_whitespace().collect();
                 if w[0] == "thread" { Some((w.get(1).unwrap_or_else(|| fail(format!("{}:{}: //@thread needs a callee", tfile, d.tline))).to_string(), t.trim().to_string())) } else { None }
             }).collect();
-            let mut rw = Rewriter { src, ed: &mut ed, abort_allowed, fired: BTreeMap::new(), thread };
+            let mut rw = Rewriter { src, ed: &mut ed, abort_allowed, fired: BTreeMap::new(), thread, tostring: d.opts.has("tostring") };
             rw.visit_block(loc.block);
             fired = rw.fired;
         }
@@ -1137,7 +1197,22 @@ fn process_item(ctx: &mut Ctx, file: &str, name: &str, opts: &Opts, tfile: &str,
             ed.replace(x, y, vec![Piece::Lit(String::new())], "noattrs");
         }
     }
-    let text = ed.render(a, b, None);
+    let mut text = ed.render(a, b, None);
+    // R26 (`execconst`): `const X: T = F(args);` whose initialiser calls an exec function becomes
+    //   `exec const X: T ensures X == F(args) { F(args) }`  (type and initialiser text verbatim; F must have a spec counterpart)
+    if opts.has("execconst") {
+        for it in &src.ast.items {
+            if let syn::Item::Const(c) = it {
+                if c.ident == name {
+                    let ty = &src.text[src.range(c.ty.span()).0..src.range(c.ty.span()).1];
+                    let ex = &src.text[src.range(c.expr.span()).0..src.range(c.expr.span()).1];
+                    let vis = &src.text[src.range(c.vis.span()).0..src.range(c.vis.span()).1];
+                    text = format!("{} exec const {}: {}\n    ensures {} == {}\n{{ {} }}", vis, name, ty, name, ex, ex);
+                    notes.push("R26: const with an exec initialiser turned into `exec const .. ensures X == init`".to_string());
+                }
+            }
+        }
+    }
     let (l0, l1) = (src.line_of(a), src.line_of(b));
     let srctext = src.text[a..b].to_string();
     let start_line = ctx.out_line + 1;
